@@ -21,11 +21,25 @@ Definition SO {R} (s : list R) (e : list (R * errk)) : sendout R := mkSendOut s 
     order id = base + instrument index) or fixed lists *)
 Inductive close_script := CloseDefault (strat base : N) | CloseScripted (cs : list creq) (os : list oreq).
 
+(** strategy hooks (user code holding the Engine): OnDisconnectStrategy::on_disconnect, called by
+    Engine::process on an account / market Reconnecting notice, and OnTradingDisabled::
+    on_trading_disabled, called when a TradingStateUpdate turns trading from enabled to disabled *)
+Inductive hook := HAccountReconnecting | HMarketReconnecting | HTradingDisabled.
+Definition hook_fires (h : hook) (trading_before : bool) : bool :=
+  match h with HTradingDisabled => trading_before | _ => true end.
+Definition hook_state (h : hook) (s : state) : state :=
+  match h with HTradingDisabled => set_trading s false | _ => s end.
+
 Inductive op :=
 | OpProcess (ev : event)              (* Engine::process *)
 | OpGenerate                          (* Engine::generate_algo_orders() called directly *)
 | OpAction (c : command)              (* Engine::action() called directly *)
-| OpSetLink (e : N) (st : lstat).     (* environment: exchange e's link is replaced *)
+| OpSetLink (e : N) (st : lstat)      (* environment: exchange e's link is replaced *)
+| OpHook (h : hook) (c : command).    (* Engine::process of the event that triggers hook [h], whose user
+                                         code actions [c] by calling the public trait method directly
+                                         (CancelOrders::cancel_orders / ClosePositions::close_positions);
+                                         the strategy script of such a step is empty; the value observed is
+                                         what the hook's call returned (nothing if the hook did not fire) *)
 
 Inductive result :=
 | RAudit (a : audit) | RAlgo (a : algo_out) | RAction (a : action_out) | RNone | RPanic.
@@ -145,12 +159,16 @@ Definition model_step (s : state) (st : step) : state * mres :=
   | OpGenerate => let '(s', a) := generate s (st_g st) in (s', MAlgo a)
   | OpAction c => let '(s', a) := action (cs_of (st_close st)) s c in (s', MAction a)
   | OpSetLink e stt => (mkState (trading s) (updN (links s) e (fun _ => link_of_stat stt)) (insts s), MNone)
+  | OpHook h c =>
+      if hook_fires h (trading s) then
+        let '(s', a) := action (cs_of (st_close st)) (hook_state h s) c in (s', MAction a)
+      else (s, MNone)
   end.
 
 (** the code iterates a hash map only when it builds the requests of a CancelOrders command *)
 Definition hash_ordered (o : op) : bool :=
   match o with
-  | OpProcess (EvCommand (CCancelOrders _)) | OpAction (CCancelOrders _) => true
+  | OpProcess (EvCommand (CCancelOrders _)) | OpAction (CCancelOrders _) | OpHook _ (CCancelOrders _) => true
   | _ => false
   end.
 
@@ -204,7 +222,7 @@ Definition event_insts (ev : event) : list N :=
   | _ => []
   end.
 Definition step_insts (st : step) : list N :=
-  match st_op st with OpProcess ev => event_insts ev | OpAction c => cmd_insts c | _ => [] end ++
+  match st_op st with OpProcess ev => event_insts ev | OpAction c => cmd_insts c | OpHook _ c => cmd_insts c | _ => [] end ++
   map (fun r => k_inst (cr_key r)) (gs_cancels (st_g st)) ++ map (fun r => k_inst (or_key r)) (gs_opens (st_g st)) ++
   match st_close st with
   | CloseScripted cs os => map (fun r => k_inst (cr_key r)) cs ++ map (fun r => k_inst (or_key r)) os
@@ -215,6 +233,8 @@ Definition step_valid (n : N) (st : step) : bool :=
   match st_op st with
   | OpProcess (EvTrade _ _ q) => true                (* any fill quantity, incl. zero: mirrored by the model *)
   | OpProcess (EvMarketL1 _ _ b) => l1_ok b          (* exact mid-price, non-zero total amount *)
+  | OpHook _ _ =>                                    (* hook steps carry an empty strategy script *)
+      match gs_cancels (st_g st), gs_opens (st_g st) with [], [] => true | _, _ => false end
   | _ => true
   end &&
   Nat.eqb (length (ob_insts (st_obs st))) (N.to_nat n).
